@@ -436,6 +436,49 @@ pub fn structured_faults_on(doc: &J, stride: usize, phase: usize, sink: &mut dyn
                         });
                     }
                 }
+                // member NAMES that are numbers (maps keyed by timestamps and the like) are
+                // values too: altered to their neighbours, to extremes, to non-numbers
+                for i in 0..m.len().min(6) {
+                    let key = m[i].0.trim_matches('"').to_string();
+                    if let Ok(k) = key.parse::<i64>() {
+                        let mut alts: Vec<String> = vec![
+                            "0".into(),
+                            "-1".into(),
+                            k.wrapping_add(1).to_string(),
+                            k.wrapping_neg().to_string(),
+                            "9223372036854775807".into(),
+                            "-9223372036854775808".into(),
+                            "99999999999999999".into(),
+                            "-99999999999999999".into(),
+                            "8210266876799".into(),
+                            "8210266876800".into(),
+                            "-8334601228800".into(),
+                            "-8334601228801".into(),
+                            "18446744073709551616".into(),
+                            "1e3".into(),
+                            "1.5".into(),
+                            "".into(),
+                            "x".into(),
+                        ];
+                        if let Some((other, _)) = m.get(i + 1) {
+                            alts.push(other.trim_matches('"').to_string());
+                        }
+                        for alt in alts {
+                            if alt == key {
+                                continue;
+                            }
+                            let mut d = doc.clone();
+                            if let Some(J::Obj(mm)) = get_mut(&mut d, p) {
+                                mm[i].0 = format!("\"{}\"", alt);
+                            }
+                            sink(Faulted {
+                                kind: "VALUE_ALTER",
+                                what: format!("key {} of {} := {}", key, here, alt),
+                                text: render(&d),
+                            });
+                        }
+                    }
+                }
                 for i in 0..m.len() {
                     let mut d = doc.clone();
                     if let Some(J::Obj(mm)) = get_mut(&mut d, p) {
